@@ -271,12 +271,16 @@ func (e *run) dbCase(c DBCase, idx uint64) error {
 			continue
 		}
 		if len(q.Keys) > 0 {
-			ms, err := e.modelRows(map[string]interface{}{"engine": "sort", "op": "sort", "keys": q.Keys, "rows": rowsJSON(unordered)})
-			if err != nil {
-				return err
-			}
-			if !sameStrings(canonOrdered(q.Keys, ms), canonOrdered(q.Keys, ordered)) {
-				e.ctx.Res.Disagree(hk.Disagreement{Kind: "model-vs-impl", Case: cj, Impl: rowsJSON(ordered), Model: rowsJSON(ms), Detail: "db: ordered result (modulo order inside ties)", Index: idx})
+			if len(unordered) <= modelSortMax {
+				ms, err := e.modelRows(map[string]interface{}{"engine": "sort", "op": "sort", "keys": q.Keys, "rows": rowsJSON(unordered)})
+				if err != nil {
+					return err
+				}
+				if !sameStrings(canonOrdered(q.Keys, ms), canonOrdered(q.Keys, ordered)) {
+					e.ctx.Res.Disagree(hk.Disagreement{Kind: "model-vs-impl", Case: cj, Impl: rowsJSON(ordered), Model: rowsJSON(ms), Detail: "db: ordered result (modulo order inside ties)", Index: idx})
+				}
+			} else {
+				e.hit("large:model-sort-skipped(quadratic)")
 			}
 			msl, err := e.modelRows(map[string]interface{}{"engine": "sort", "op": "slice", "rows": rowsJSON(ordered), "limit": q.Limit, "offset": q.Offset})
 			if err != nil {
